@@ -38,9 +38,9 @@ def run(tier, replay=None):
     run.rule = ("for each (base, count, roller kind) instance every initial directory (all subsets of the indices "
                 "base-1..base+count present, distinct contents) and count+2 successive rolls; each behaviour is "
                 "replayed through Roll::roll with the index in the file name, in a directory component, repeated, "
-                "behind $ENV{..} (value containing the placeholder; index inside the variable name), with the rolled file on another "
+                "behind $ENV{..} (value containing the placeholder; index inside the variable name; a reference in the last component whose value brings directories along), with the rolled file on another "
                 "filesystem than the archives, and with a .gz pattern (archives decompressed for comparison); the full recursive "
-                "snapshot is compared after every roll incl. bystander files; non-trivial = initial directory with "
+                "snapshot is compared after every roll incl. bystander files; windows of two and three also have the archive directory removed between two rolls (Wipe); non-trivial = initial directory with "
                 "both present and absent indices (gaps / partial windows)")
     run.assumptions = ["contents are 5 representatives (empty, short, 5 KB, multi-byte, two lines)",
                        "empty directories left behind are not files and are ignored"]
